@@ -1,7 +1,7 @@
 (* Model/Range.v — executable model of dreye/api/convex.py:_range_of_solutions (enumeration of
    basic solutions) over Q, and certificate checkers for the exact per-source extents (C06). *)
 From Coq Require Import QArith Qabs Qminmax List Bool Arith Lia.
-From DV Require Import Base.QVec Run.Verdict Model.Linear Cert.Hull Cert.Duality Model.Lsq.
+From DV Require Import Base.QVec Run.Verdict Model.Linear Cert.Hull Cert.Duality Model.Lsq Model.Gauss.
 Import ListNotations.
 Open Scope Q_scope.
 
@@ -35,7 +35,7 @@ Definition det (M : mat) : Q := detf (length M) M.
 Fixpoint set_nth (j : nat) (a : Q) (l : vec) : vec :=
   match l, j with [], _ => [] | _ :: l', O => a :: l' | b :: l', S j' => b :: set_nth j' a l' end.
 Definition replace_col (M : mat) (j : nat) (v : vec) : mat := map2v (fun a r => set_nth j a r) v M.
-(* Cramer's rule; None when the matrix is singular (np.linalg.solve raises LinAlgError) *)
+(* Cramer's rule; None when the matrix is singular (kept for Sampling/Volume; the range model solves by elimination, Model/Gauss.v) *)
 Definition solveQ (M : mat) (rhs : vec) : option vec :=
   let d := det M in
   if Qeq_bool d 0 then None
@@ -68,12 +68,12 @@ Definition candidate (A : mat) (b lb ub : vec) (n : nat) (idx : list nat) (pat :
   let fixedv := map2 (fun i (p : bool) => if p then nthQ ub i else nthQ lb i) idx pat in
   let rest := complement n idx in
   let rhs := vred (vsub b (matvec (cols A idx) fixedv)) in
-  match solveQ (cols A rest) rhs with
+  match solve_ge (cols A rest) rhs with
   | None => Ok None          (* singular sub-system: not a basis, skipped (fix 938ae05; LinAlgError before) *)
   | Some sol =>
       let x := assemble n idx fixedv rest sol in
       (* exact acceptance test of the code (no tolerance) on the solved part; the guard
-         A x == b is always true when solveQ is right and makes the theorems independent of it; likewise
+         A x == b is always true when the solve is right and makes the theorems independent of it; likewise
          in_boxb x lb ub only adds lb <= ub for the sources fixed at a bound *)
       if in_boxb sol (select rest lb 0) (select rest ub 0) && veq_b (matvec A x) b && in_boxb x lb ub
       then Ok (Some x) else Ok None
